@@ -133,6 +133,11 @@ func genC06(r *Rng, tier string, emit func(Case)) {
 		e("wifdec", "bitflip", hs(base58.Encode(g2)))
 		e("wifdec", "extra1", hs("1"+base58.Encode(good)))
 		e("wifdec", "utf8", hs(utf8Variant(r, base58.Encode(good))))
+		{
+			hb := []byte(base58.Encode(good))
+			hb[r.Intn(len(hb))] |= 0x80 // a byte that is a Base58 digit once its top bit is masked off
+			e("wifdec", "highbit", hx(hb))
+		}
 		raw := r.Bytes(r.Intn(60))
 		for j := range raw {
 			raw[j] = b58alpha[int(raw[j])%58]
@@ -156,6 +161,24 @@ func genC06(r *Rng, tier string, emit func(Case)) {
 			}
 		}
 		e("wifhist", "history", itoa(ids[r.Intn(len(ids))]), b2s(r.Bool()), hx(genScalar(r)), strings.Join(steps, ","))
+	}
+	// the byte after the 32 key bytes: in an uncompressed WIF it is the first checksum byte - make it 0x01 (the
+	// compression marker), 0x00, 0xff; in a compressed one make the first checksum byte 0x01
+	for _, want := range []byte{0x01, 0x01, 0x00, 0xff} {
+		for comp := 0; comp < 2; comp++ {
+			for try := 0; try < 20000; try++ {
+				k := genScalar(r)
+				body := append([]byte{128}, k...)
+				if comp == 1 {
+					body = append(body, 1)
+				}
+				if chainhash.DoubleHashB(body)[0] == want {
+					e("wif", "ckfirst", "128", itoa(comp), hx(k))
+					e("wifdec", "ckfirst", hs(base58.Encode(append(body, chainhash.DoubleHashB(body)[:4]...))))
+					break
+				}
+			}
+		}
 	}
 	// edge scalars
 	for _, k := range [][]byte{make([]byte, 32), secpN, bytesFF(32)} {
